@@ -87,6 +87,19 @@ def handler(c):
             atoms.positions[ctx._moving_indices] += r
     res = {"outs": outs, "calls": [[x[0]] + [y if not isinstance(y, tuple) else list(y) for y in x[1:]] for x in log],
            "consumed": getattr(rng, "pos", None), "masses": hx(atoms.get_masses()), "final_positions": hx(atoms.positions)}
+    if isinstance(c["op"], list) and c["mode"] == "scripted" and c.get("repeat", 1) == 1 and not c.get("apply"):
+        # the parts evaluated one after the other on a fresh context with the same script (each draws in turn): their sum, term by term
+        atoms2 = build_atoms(c)
+        ctx2 = DisplacementContext(atoms2, ScriptedRNG(c["script"], []))
+        ctx2._moving_indices = list(c["indices"])
+        try:
+            parts = [np.asarray(build_op(sp).calculate(ctx2), dtype=float) for sp in c["op"]]
+            total = parts[0] + np.zeros_like(np.broadcast_arrays(*parts)[0])
+            for p_ in parts[1:]:
+                total = total + p_
+            res["parts_sum"] = {"shape": list(total.shape), "value": hx(total)}
+        except Exception as e:  # noqa: BLE001
+            res["parts_sum_error"] = f"{type(e).__name__}: {e}"
     if deform and c["mode"] == "scripted" and c["op"]["kind"] != "iso":
         # scipy's expm on the generator the operation builds (the oracle answer for the model) + numerical validation of its contract
         comps = [-c["op"]["max_value"] + 2 * c["op"]["max_value"] * t for t in c["script"][:6]]
